@@ -1930,6 +1930,10 @@ def cli_flag(kind):
         used('cli.Context.String/Uint/Int/Bool...: arbitrary flag values')
         name = name_of(args[1])
         key = 'flag:' + name
+        fixed = getattr(args[0], 'fixed', None) or {}
+        if name in fixed:
+            fv = fixed[name]
+            return S(fv) if kind == 'string' else (z3.BoolVal(bool(fv)) if kind == 'bool' else bvval(int(fv), 64))
         if key in st.draws:
             v = st.draws[key]
         elif kind == 'string':
